@@ -223,6 +223,8 @@ class FieldCodeGenerator:
             expression = self._name
             if self._array_field:
                 expression = f'tuple({expression})'
+                if self._optional:
+                    expression += f' if {self._name} is not None else None'
         elif isinstance(field_type, StringType):
             expression = repr(self._hardcoded_value)
         elif isinstance(field_type, BoolType):
